@@ -704,7 +704,8 @@ def rand_acts(rng, depth, feats, p_raise=0.35, maxlen=3):
 def rand_prog(rng, feats=frozenset(), depth=3, p_raise=0.35):
     hs = []
     if rng.random() < 0.4:
-        pool = [(CUSTOM, rng.choice(OUTCOMES)), (CUSTOMBASE, rng.choice(OUTCOMES)), (CUSTOMSUB, rng.choice(OUTCOMES)),
+        outs = OUTCOMES[1:]      # a handler that reports success for an exception is outside every quantifier
+        pool = [(CUSTOM, rng.choice(outs)), (CUSTOMBASE, rng.choice(outs)), (CUSTOMSUB, rng.choice(outs)),
                 ("Kbd", rng.choice(["error", "failure", "skip"])), (SUBFAIL, rng.choice(["skip", "error", "xfail"])),
                 ("SetupError", rng.choice(["skip", "failure"]))]
         rng.shuffle(pool)
